@@ -358,27 +358,42 @@ def hermite_E(alpha, A, beta, B, la, lb):
 
 
 def boys_all(nmax, x):
-    """F_0..F_nmax (x) as longdouble; top order from mpmath, downward recursion."""
-    x = LD(x)
-    out = np.zeros(nmax + 1, dtype=LD)
-    xm = mpmath.mpf(float(x))
-    if x == 0:
-        top = mpmath.mpf(1) / (2 * nmax + 1)
-    else:
-        top = mpmath.hyp1f1(nmax + 0.5, nmax + 1.5, -xm) / (2 * nmax + 1)
-    out[nmax] = LD(str(mpmath.nstr(top, 30)))
-    ex = np.exp(-x)
+    """F_0..F_nmax (x) as longdouble, x scalar or array; top order from mpmath, downward recursion.
+
+    Returns array of shape (nmax+1,) + x.shape.
+    """
+    x = np.asarray(x, dtype=LD)
+    flat = x.reshape(-1)
+    top = np.zeros(flat.shape, dtype=LD)
+    for i, xv in enumerate(flat):
+        if xv == 0:
+            t = mpmath.mpf(1) / (2 * nmax + 1)
+        else:
+            xm = mpmath.mpf(float(xv))
+            lo = float(xv - LD(float(xv)))  # longdouble remainder, first-order correction dF_n/dx = -F_{n+1}
+            t = mpmath.hyp1f1(nmax + 0.5, nmax + 1.5, -xm) / (2 * nmax + 1)
+            if lo != 0.0:
+                t = t - mpmath.mpf(lo) * mpmath.hyp1f1(nmax + 1.5, nmax + 2.5, -xm) / (2 * nmax + 3)
+        top[i] = LD(str(mpmath.nstr(t, 30)))
+    out = np.zeros((nmax + 1,) + flat.shape, dtype=LD)
+    out[nmax] = top
+    ex = np.exp(-flat)
     for n in range(nmax, 0, -1):
-        out[n - 1] = (2 * x * out[n] + ex) / (2 * n - 1)
-    return out
+        out[n - 1] = (2 * flat * out[n] + ex) / (2 * n - 1)
+    return out.reshape((nmax + 1,) + x.shape)
 
 
 def hermite_R(L, p, PC):
-    """R[t,u,v] (n=0) for t+u+v <= L, Coulomb Hermite integrals."""
+    """R[t,u,v] (n=0) for t+u+v <= L, Coulomb Hermite integrals. PC: (3,) or (N,3) -> R[t,u,v(,N)]."""
     PC = np.asarray(PC, dtype=LD)
+    single = PC.ndim == 1
+    if single:
+        PC = PC[None, :]
+    N = PC.shape[0]
     p = LD(p)
-    F = boys_all(L, p * np.dot(PC, PC))
-    Rn = np.zeros((L + 1, L + 1, L + 1, L + 1), dtype=LD)  # n,t,u,v
+    F = boys_all(L, p * np.sum(PC * PC, axis=1))  # (L+1, N)
+    X, Y, Zc = PC[:, 0], PC[:, 1], PC[:, 2]
+    Rn = np.zeros((L + 1, L + 1, L + 1, L + 1, N), dtype=LD)  # n,t,u,v
     for n in range(L + 1):
         Rn[n, 0, 0, 0] = (-2 * p) ** n * F[n]
     for n in range(L - 1, -1, -1):
@@ -388,19 +403,20 @@ def hermite_R(L, p, PC):
                     if t + u + v == 0:
                         continue
                     if t > 0:
-                        val = PC[0] * Rn[n + 1, t - 1, u, v]
+                        val = X * Rn[n + 1, t - 1, u, v]
                         if t > 1:
-                            val += (t - 1) * Rn[n + 1, t - 2, u, v]
+                            val = val + (t - 1) * Rn[n + 1, t - 2, u, v]
                     elif u > 0:
-                        val = PC[1] * Rn[n + 1, t, u - 1, v]
+                        val = Y * Rn[n + 1, t, u - 1, v]
                         if u > 1:
-                            val += (u - 1) * Rn[n + 1, t, u - 2, v]
+                            val = val + (u - 1) * Rn[n + 1, t, u - 2, v]
                     else:
-                        val = PC[2] * Rn[n + 1, t, u, v - 1]
+                        val = Zc * Rn[n + 1, t, u, v - 1]
                         if v > 1:
-                            val += (v - 1) * Rn[n + 1, t, u, v - 2]
+                            val = val + (v - 1) * Rn[n + 1, t, u, v - 2]
                     Rn[n, t, u, v] = val
-    return Rn[0]
+    out = Rn[0]
+    return out[..., 0] if single else out
 
 
 def _pair_E3(sa, sb, ka, kb):
@@ -430,10 +446,8 @@ def nuclear_block(sa, sb, points, charges=None):
             p = a + b
             P = (a * sa.coord.astype(LD) + b * sb.coord.astype(LD)) / p
             E3 = _pair_E3(sa, sb, ka, kb)
-            prim = np.zeros((sa.ncart, sb.ncart, len(points)), dtype=LD)
-            for n, R in enumerate(points):
-                Rt = hermite_R(L, p, P - R.astype(LD))
-                prim[:, :, n] = -q[n] * 2 * LD(np.pi) / p * np.einsum("abtuv,tuv->ab", E3, Rt)
+            Rt = hermite_R(L, p, P[None, :] - points.astype(LD))  # (t,u,v,N)
+            prim = -q.astype(LD)[None, None, :] * 2 * LD(np.pi) / p * np.einsum("abtuv,tuvn->abn", E3, Rt)
             out += wa[:, :, None, None, None, ka] * wb[None, None, :, :, None, kb] * prim[None, :, None, :, :]
     return out.reshape(sa.M * sa.ncart, sb.M * sb.ncart, len(points))
 
